@@ -299,7 +299,7 @@ func parallel(workers, n int, fn func(i int)) {
 
 // simCfg replays random behaviours (TLC -simulate) of a configuration whose
 // state graph is too large to dump.
-func simCfg(ctx *vrun.Ctx, cfg string, num, depth int, work string) error {
+func simCfg(ctx *vrun.Ctx, cfg string, num, depth int, work string, sem chan struct{}) error {
 	o := tlc.Opts{
 		SpecDir: ctx.SpecDir("ffldb"), Module: "MCFfldb", Config: cfg,
 		Timeout: 10 * time.Minute, HeapGB: 4, Scratch: ctx.Scratch,
@@ -353,6 +353,8 @@ func simCfg(ctx *vrun.Ctx, cfg string, num, depth int, work string) error {
 	}
 	ctx.Logf("%s: %d simulated behaviours, %d distinct transitions", cfg, len(paths), len(edges))
 	r := &runner{ctx: ctx, cfg: cfg + "(simulate)", cc: cc}
+	sem <- struct{}{}
+	defer func() { <-sem }()
 	return r.replayAll(g, paths, len(edges), work)
 }
 
@@ -364,7 +366,7 @@ func RunC05(ctx *vrun.Ctx) error {
 	ctx.Assume("goleveldb is an atomic, durable batch store (its internals are outside /repo)")
 	ctx.Assume("a process-crash image is a copy of the database directory taken between two I/O calls; a power loss is simulated by additionally cutting every block file back to its length at its last successful Sync (leveldb's own durability is trusted)")
 	ctx.Assume("the cursor of a bucket yields its keys in byte order followed by its nested buckets in byte order")
-	var runs []cfgRun
+	var runs, big []cfgRun
 	if ctx.Thorough {
 		runs = []cfgRun{
 			{cfg: "kv.cfg", graph: true, timeout: 20 * time.Minute, heapGB: 8},
@@ -373,14 +375,18 @@ func RunC05(ctx *vrun.Ctx) error {
 			{cfg: "pow.cfg", graph: true, timeout: 20 * time.Minute, heapGB: 8},
 			{cfg: "cur.cfg", graph: true, timeout: 20 * time.Minute, heapGB: 8},
 			{cfg: "curmix.cfg", graph: true, timeout: 20 * time.Minute, heapGB: 8},
-			{cfg: "curmixr.cfg", timeout: 20 * time.Minute, heapGB: 8},
 			{cfg: "isoblk.cfg", graph: true, timeout: 20 * time.Minute, heapGB: 8},
 			{cfg: "fault2.cfg", graph: true, timeout: 20 * time.Minute, heapGB: 8},
 			{cfg: "blk3.cfg", graph: true, timeout: 20 * time.Minute, heapGB: 8},
+		}
+		// exhaustive TLC only (state graphs too large to dump); behaviours of
+		// these configurations are replayed from simulation below
+		big = []cfgRun{
 			{cfg: "blkbig.cfg", timeout: 25 * time.Minute, heapGB: 8},
 			{cfg: "kvblk.cfg", timeout: 25 * time.Minute, heapGB: 8},
 			{cfg: "kv3.cfg", timeout: 25 * time.Minute, heapGB: 8},
 			{cfg: "iso2.cfg", timeout: 25 * time.Minute, heapGB: 8},
+			{cfg: "curmixr.cfg", timeout: 25 * time.Minute, heapGB: 8},
 		}
 	} else {
 		runs = []cfgRun{
@@ -403,6 +409,15 @@ func RunC05(ctx *vrun.Ctx) error {
 			}
 		}
 		runs = keep
+		keep = nil
+		for _, cr := range big {
+			for _, s := range strings.Split(sel, ",") {
+				if cr.cfg == s {
+					keep = append(keep, cr)
+				}
+			}
+		}
+		big = keep
 	}
 	// The treap check is independent: it runs beside the ffldb pipeline.
 	treapDone := make(chan error, 1)
@@ -454,6 +469,9 @@ func RunC05(ctx *vrun.Ctx) error {
 	if ctx.Thorough {
 		conc = 2
 	}
+	if len(runs) == 0 {
+		conc = 0
+	}
 	jobs := make(chan cfgRun)
 	for k := 0; k < conc; k++ {
 		wg.Add(1)
@@ -483,6 +501,46 @@ func RunC05(ctx *vrun.Ctx) error {
 			}
 		}()
 	}
+	// one more lane model-checks the large configurations meanwhile, and one
+	// replays simulated behaviours of them
+	wg.Add(1)
+	go func() {
+		defer wg.Done()
+		for _, cr := range big {
+			mu.Lock()
+			stop := firstErr != nil
+			mu.Unlock()
+			if stop {
+				return
+			}
+			if _, err := modelCheck(ctx, cr); err != nil {
+				setErr(err)
+				return
+			}
+		}
+	}()
+	simsel := os.Getenv("VERIF_FFLDB_CFGS")
+	if ctx.Thorough && (simsel == "" || strings.Contains(simsel, "sim")) {
+		wg.Add(1)
+		go func() {
+			defer wg.Done()
+			for _, sc := range []struct {
+				cfg        string
+				num, depth int
+			}{{"blkbig.cfg", 1000, 90}, {"kvblk.cfg", 1000, 80}, {"kv3.cfg", 1000, 40}, {"iso2.cfg", 1000, 40}, {"cur2.cfg", 2000, 45}, {"curmixr.cfg", 1500, 32}} {
+				mu.Lock()
+				stop := firstErr != nil
+				mu.Unlock()
+				if stop {
+					return
+				}
+				if err := simCfg(ctx, sc.cfg, sc.num, sc.depth, work, sem); err != nil {
+					setErr(err)
+					return
+				}
+			}
+		}()
+	}
 	for _, cr := range runs {
 		jobs <- cr
 	}
@@ -494,28 +552,6 @@ func RunC05(ctx *vrun.Ctx) error {
 	if err := <-treapDone; err != nil {
 		return err
 	}
-	sims := []struct {
-		cfg        string
-		num, depth int
-	}{}
-	for _, sc := range sims {
-		if os.Getenv("VERIF_FFLDB_CFGS") != "" && !strings.Contains(os.Getenv("VERIF_FFLDB_CFGS"), "sim") {
-			break
-		}
-		if err := simCfg(ctx, sc.cfg, sc.num, sc.depth, work); err != nil {
-			return err
-		}
-	}
-	if ctx.Thorough {
-		for _, sc := range []struct {
-			cfg        string
-			num, depth int
-		}{{"blkbig.cfg", 1500, 90}, {"kvblk.cfg", 1500, 80}, {"kv3.cfg", 1500, 40}, {"iso2.cfg", 1500, 40}, {"cur2.cfg", 2500, 45}, {"curmixr.cfg", 2000, 32}} {
-			if err := simCfg(ctx, sc.cfg, sc.num, sc.depth, work); err != nil {
-				return err
-			}
-		}
-	}
 	ctx.Ev.Coverage.DistinctNT += atomic.SwapInt64(&distinctNT, 0)
 	labelsMu.Lock()
 	hist := map[string]int64{}
@@ -524,7 +560,7 @@ func RunC05(ctx *vrun.Ctx) error {
 	}
 	labelsMu.Unlock()
 	ctx.SetExtra("spec_step_kinds", hist)
-	var never []string
+	never := []string{}
 	for _, l := range requiredLabels {
 		if hist[l] == 0 {
 			never = append(never, l)
